@@ -10,6 +10,28 @@ let split_on c s = if s = "" then [] else String.split_on_char c s
 
 let fail_line msg = "ERROR " ^ msg
 
+(* ascii <-> char, str (ascii list) <-> OCaml string, hex *)
+let ascii_of_char c =
+  let n = Char.code c in
+  let b i = (n lsr i) land 1 = 1 in
+  Ascii (b 0, b 1, b 2, b 3, b 4, b 5, b 6, b 7)
+
+let char_of_ascii (Ascii (b0, b1, b2, b3, b4, b5, b6, b7)) =
+  let v b i = if b then 1 lsl i else 0 in
+  Char.chr (v b0 0 + v b1 1 + v b2 2 + v b3 3 + v b4 4 + v b5 5 + v b6 6 + v b7 7)
+
+let str_of_string s = List.init (String.length s) (fun i -> ascii_of_char s.[i])
+let string_of_str l = String.of_seq (List.to_seq (List.map char_of_ascii l))
+
+let unhex h =
+  let n = String.length h / 2 in
+  String.init n (fun i -> Char.chr (int_of_string ("0x" ^ String.sub h (2 * i) 2)))
+let hex s =
+  String.concat "" (List.init (String.length s) (fun i -> Printf.sprintf "%02x" (Char.code s.[i])))
+(* "-" stands for the empty string in case lines *)
+let str_of_hex h = if h = "-" then [] else str_of_string (unhex h)
+let hex_of_str l = match l with [] -> "-" | _ -> hex (string_of_str l)
+
 (* ---------- C19 ---------- *)
 let fname_of_string s =
   match s with
@@ -66,9 +88,25 @@ let c19 args =
     ^ " spec=" ^ String.concat "," (List.map string_of_content spec)
   | _ -> fail_line "C19 args"
 
+(* ---------- C13 ---------- *)
+let c13 args =
+  match args with
+  | ["enc"; h] ->
+    let s = str_of_hex h in
+    let m = (match go_eval (encode s) with Some v -> hex_of_str v | None -> "INVALID") in
+    "model=" ^ m ^ " spec=" ^ hex_of_str s
+  | ["lit"; h] ->
+    let s = str_of_hex h in
+    "model=" ^ (match go_eval s with Some v -> hex_of_str v | None -> "INVALID")
+  | ["text"; h] ->
+    (* the literal text the generator is expected to emit *)
+    "model=" ^ hex_of_str (encode (str_of_hex h))
+  | _ -> fail_line "C13 args"
+
 let dispatch line =
   match String.split_on_char ' ' line with
   | "C19" :: args -> c19 args
+  | "C13" :: args -> c13 args
   | _ -> fail_line ("unknown case: " ^ line)
 
 let () =
